@@ -18,7 +18,7 @@ ORACLE = "R-rpc: sequential model of a test handler; per call delivered in full 
 DESIGN_REF = "DESIGN.md section 7 (C16), 3.3"
 RULE = (
     "the real SocketRPCServer with a test handler (echo, slow, usage failure, internal failure, "
-    "unpicklable result, sync method, non-exposed method, big payload) serves 1-5 connections: "
+    "unpicklable result, sync method, non-exposed method, big payload, a handler whose own awaitable is cancelled from inside the server) serves 1-5 connections: "
     "real SocketAsyncRPCClients with up to 12 calls in flight, real SocketSyncRPCClients in baton "
     "threads, and raw byte-level clients that send hand-built frames; every write is fragmented "
     "by the seeded transport (down to single bytes); injected faults: disconnect at an arbitrary "
